@@ -14,7 +14,8 @@
 //!   (v)   a refused operation (`Err`/`None`/`Ok(false)`) left the canonical JSON unchanged,
 //!   (vi)  result flag and resulting entry sets agree with an abstract set-of-entries model,
 //!   (vii) every query {full id, "#frag", "frag"} x scope {None, each of the six} of `resolve_method`,
-//!         `resolve_service`, and `methods(scope)` return the entry the model predicts,
+//!         `resolve_method_mut`, `resolve_service`, and `methods(scope)` return exactly the entry an exact
+//!         first-match model (documented iteration orders only) predicts,
 //!   (viii) the same operation applied to the document as re-read from its JSON gives the same result and document.
 //! A violating successor is reported and NOT expanded (the search continues everywhere else).
 
@@ -393,8 +394,10 @@ impl Abs {
       }
     }
   }
+  /// In document order: general-purpose methods, then the relationships in the order of
+  /// `verification_relationships()`, entry order inside each set.
   fn methods(&self, scope: Option<u8>) -> Vec<(u8, Body)> {
-    let mut v: Vec<(u8, Body)> = match scope {
+    let v: Vec<(u8, Body)> = match scope {
       None => {
         let mut v = self.general.clone();
         for l in &self.rels {
@@ -415,8 +418,48 @@ impl Abs {
         })
         .collect(),
     };
-    v.sort();
     v
+  }
+  /// Does query `q` (full id: that id; fragment forms: every id with that fragment, whatever its DID) match `id`?
+  fn q_matches(q: u8, id: u8) -> bool {
+    if q < NID {
+      id == q
+    } else {
+      id != UNKNOWN && frag_of(id) == (q - NID) % 3
+    }
+  }
+  /// First-match resolution built only from the documented orders: unscoped = the first relationship entry (in the
+  /// order of `verification_relationships()`: authentication, assertionMethod, keyAgreement, capabilityDelegation,
+  /// capabilityInvocation; entry order inside each set) whose id matches; embedded -> that method; reference -> the
+  /// general-purpose method whose id EQUALS the reference's id; no relationship entry matches -> the first matching
+  /// general-purpose method (verificationMethod order). Scoped = the same inside that scope only.
+  /// Second component: the first matching entry is a reference to a method that is not in the document.
+  fn first_match(&self, q: u8, scope: Option<u8>) -> (Option<Body>, bool) {
+    let in_list = |l: &Vec<Ent>| -> Option<(Option<Body>, bool)> {
+      l.iter().find(|e| Abs::q_matches(q, e.id())).map(|e| match e {
+        Ent::Embed(_, b) => (Some(b.clone()), false),
+        Ent::Refer(i) => match self.general(*i) {
+          Some(b) => (Some(b.clone()), false),
+          None => (None, true),
+        },
+      })
+    };
+    let first_general = || self.general.iter().find(|(i, _)| Abs::q_matches(q, *i)).map(|(_, b)| b.clone());
+    match scope {
+      None => {
+        for l in &self.rels {
+          if let Some(r) = in_list(l) {
+            return r;
+          }
+        }
+        (first_general(), false)
+      }
+      Some(0) => (first_general(), false),
+      Some(r) => in_list(&self.rels[(r - 1) as usize]).unwrap_or((None, false)),
+    }
+  }
+  fn first_service(&self, q: u8) -> Option<Body> {
+    self.services.iter().find(|(i, _)| Abs::q_matches(q, *i)).map(|(_, b)| b.clone())
   }
 }
 
@@ -748,94 +791,110 @@ fn id_str_or_unknown(i: u8) -> String {
   }
 }
 
-/// Oracle (vii): every query x every scope, `resolve_service`, `methods(scope)`. Read-only; never cuts the search.
+/// What a resolution query must return. `mode`:
+/// * "unique": at most one id in the document matches the query -> exact;
+/// * "first-match": a fragment denoting several ids -> exactly the documented first match;
+/// * "ambiguous-dangling-first": several ids and the first matching entry is a reference whose method is not in the
+///   document (the docs do not say whether the search stops there) -> "as for one of the denoted ids", recorded only.
+struct Expect {
+  allowed: Vec<Option<Body>>,
+  mode: &'static str,
+}
+fn expect_method(abs: &Abs, q: u8, sc: Option<u8>) -> Expect {
+  let cands = abs.method_candidates(q);
+  if cands.len() <= 1 {
+    return Expect { allowed: vec![cands.first().and_then(|c| abs.resolve(*c, sc))], mode: "unique" };
+  }
+  let (r, dangling) = abs.first_match(q, sc);
+  if dangling {
+    Expect { allowed: cands.iter().map(|c| abs.resolve(*c, sc)).collect(), mode: "ambiguous-dangling-first" }
+  } else {
+    Expect { allowed: vec![r], mode: "first-match" }
+  }
+}
+fn scope_kind(sc: Option<u8>) -> &'static str {
+  match sc {
+    None => "None",
+    Some(0) => "VerificationMethod",
+    Some(_) => "relationship",
+  }
+}
+fn judge(sink: &Sink, entry: &str, q: u8, sc: Option<&'static str>, exp: &Expect, real: &Option<Body>, abs: &Abs, case: &Case) {
+  if exp.allowed.contains(real) {
+    return;
+  }
+  let exact = exp.allowed.len() == 1;
+  let exp_kind = if exact { kind(&exp.allowed[0]) } else { "one-of-the-denoted" };
+  let got_kind = match real {
+    Some(_) if exact && exp.allowed[0].is_some() => "another-entry",
+    r => kind(r),
+  };
+  let scope_part = sc.map(|s| format!("|scope={s}")).unwrap_or_default();
+  sink.col.violation(
+    &format!("CoreDocument::{entry}|query={}{scope_part}|{}|expected-{exp_kind}-got-{got_kind}", query_form(q), exp.mode),
+    &format!("{entry}({:?}{}): model predicts {:?}, got {real:?}; entries {abs:?}", QUERIES[q as usize], sc.map(|s| format!(", scope {s}")).unwrap_or_default(), exp.allowed),
+    case,
+  );
+}
+
+/// Oracle (vii): every query x every scope of `resolve_method` and `resolve_method_mut`, `resolve_service`,
+/// `methods(scope)`. Read-only; never cuts the search.
 fn check_queries(sink: &Sink, doc: &CoreDocument, abs: &Abs, case: &Case) {
   let scopes = sink.scopes;
-  let mut n_unique = 0u64;
-  let mut n_amb = 0u64;
+  let mut counts: BTreeMap<&'static str, u64> = BTreeMap::new();
+  // resolve_method_mut needs `&mut`: it runs on a copy that must still equal the document afterwards
+  let mut copy = doc.clone();
   for &q in sink.queries {
     let qs = QUERIES[q as usize].as_str();
-    let cands = abs.method_candidates(q);
     for &sc in scopes {
-      let real = match guard(|| doc.resolve_method(qs, sc.map(scope_of)).map(body_of)) {
-        Ok(r) => r,
-        Err(p) => {
-          sink.col.violation(&format!("CoreDocument::resolve_method|{}", p.key()), &format!("query {qs:?} scope {sc:?}: {}", p.msg), case);
-          continue;
-        }
-      };
-      let expected: Vec<Option<Body>> = if cands.is_empty() { vec![None] } else { cands.iter().map(|c| abs.resolve(*c, sc)).collect() };
-      let unique = cands.len() <= 1;
-      if unique {
-        n_unique += 1
-      } else {
-        n_amb += 1
+      let exp = expect_method(abs, q, sc);
+      *counts.entry(exp.mode).or_insert(0) += 2;
+      match guard(|| doc.resolve_method(qs, sc.map(scope_of)).map(body_of)) {
+        Ok(real) => judge(sink, "resolve_method", q, Some(scope_kind(sc)), &exp, &real, abs, case),
+        Err(p) => sink.col.violation(&format!("CoreDocument::resolve_method|{}", p.key()), &format!("query {qs:?} scope {sc:?}: {}", p.msg), case),
       }
-      if !expected.contains(&real) {
-        let scope_kind = match sc {
-          None => "None",
-          Some(0) => "VerificationMethod",
-          Some(_) => "relationship",
-        };
-        let exp_kind = if unique { kind(&expected[0]) } else { "one-of-the-candidates" };
-        let got_kind = match (&real, unique) {
-          (Some(_), true) if expected[0].is_some() => "another-entry",
-          (r, _) => kind(r),
-        };
-        sink.col.violation(
-          &format!("CoreDocument::resolve_method|query={}|scope={scope_kind}|{}|expected-{exp_kind}-got-{got_kind}", query_form(q), if unique { "unique" } else { "ambiguous-fragment" }),
-          &format!("query {qs:?} scope {:?}: model predicts {expected:?}, got {real:?}; entries {abs:?}", sc.map(|s| SCOPE_NAMES[s as usize])),
-          case,
-        );
+      match guard(|| copy.resolve_method_mut(qs, sc.map(scope_of)).map(|m| body_of(m))) {
+        Ok(real) => judge(sink, "resolve_method_mut", q, Some(scope_kind(sc)), &exp, &real, abs, case),
+        Err(p) => sink.col.violation(&format!("CoreDocument::resolve_method_mut|{}", p.key()), &format!("query {qs:?} scope {sc:?}: {}", p.msg), case),
       }
     }
-    // services
-    let cands = abs.service_candidates(q);
-    let real = match guard(|| doc.resolve_service(qs).map(sbody_of)) {
-      Ok(r) => r,
-      Err(p) => {
-        sink.col.violation(&format!("CoreDocument::resolve_service|{}", p.key()), &format!("query {qs:?}: {}", p.msg), case);
-        continue;
-      }
-    };
-    let expected: Vec<Option<Body>> = if cands.is_empty() { vec![None] } else { cands.iter().map(|c| abs.service(*c).cloned()).collect() };
-    let unique = cands.len() <= 1;
-    if unique {
-      n_unique += 1
-    } else {
-      n_amb += 1
-    }
-    if !expected.contains(&real) {
-      sink.col.violation(
-        &format!("CoreDocument::resolve_service|query={}|{}|expected-{}-got-{}", query_form(q), if unique { "unique" } else { "ambiguous-fragment" }, if unique { kind(&expected[0]) } else { "one-of-the-candidates" }, kind(&real)),
-        &format!("query {qs:?}: model predicts {expected:?}, got {real:?}; entries {abs:?}"),
-        case,
-      );
+    // services: the first service (document order) whose id matches
+    let n = abs.service_candidates(q).len();
+    let exp = Expect { allowed: vec![abs.first_service(q)], mode: if n <= 1 { "unique" } else { "first-match" } };
+    *counts.entry(exp.mode).or_insert(0) += 1;
+    match guard(|| doc.resolve_service(qs).map(sbody_of)) {
+      Ok(real) => judge(sink, "resolve_service", q, None, &exp, &real, abs, case),
+      Err(p) => sink.col.violation(&format!("CoreDocument::resolve_service|{}", p.key()), &format!("query {qs:?}: {}", p.msg), case),
     }
   }
+  if copy != *doc {
+    sink.col.violation("CoreDocument::resolve_method_mut|document-changed-by-resolution", "the copy on which only resolve_method_mut was called differs from the document", case);
+  }
   for &sc in scopes {
-    match guard(|| {
-      let mut v: Vec<(u8, Body)> = doc.methods(sc.map(scope_of)).into_iter().map(|m| (id_of(m.id()), body_of(m))).collect();
-      v.sort();
-      v
-    }) {
+    match guard(|| doc.methods(sc.map(scope_of)).into_iter().map(|m| (id_of(m.id()), body_of(m))).collect::<Vec<(u8, Body)>>()) {
       Ok(real) => {
         let expected = abs.methods(sc);
-        n_unique += 1;
+        *counts.entry("methods(scope)").or_insert(0) += 1;
         if real != expected {
-          let scope_kind = match sc {
-            None => "None",
-            Some(0) => "VerificationMethod",
-            Some(_) => "relationship",
-          };
-          sink.col.violation(&format!("CoreDocument::methods|scope={scope_kind}|differs-from-model"), &format!("scope {sc:?}: model {expected:?}, got {real:?}"), case);
+          let (mut a, mut b) = (real.clone(), expected.clone());
+          a.sort();
+          b.sort();
+          let clause = if a == b { "order-differs-from-document-order" } else { "differs-from-model" };
+          sink.col.violation(&format!("CoreDocument::methods|scope={}|{clause}", scope_kind(sc)), &format!("scope {sc:?}: model {expected:?}, got {real:?}"), case);
         }
       }
       Err(p) => sink.col.violation(&format!("CoreDocument::methods|{}", p.key()), &p.msg, case),
     }
   }
-  sink.tally.add("query:judged-exactly(unique id)", n_unique);
-  sink.tally.add("query:judged-as-one-of-candidates(ambiguous fragment)", n_amb);
+  for (k, v) in counts {
+    let label = match k {
+      "unique" => "query:judged-exactly(unique id)",
+      "first-match" => "query:judged-exactly(first match among several ids with the fragment)",
+      "ambiguous-dangling-first" => "query:judged-as-one-of-the-denoted(first match is a dangling reference)",
+      _ => "query:methods(scope) judged in document order",
+    };
+    sink.tally.add(label, v);
+  }
 }
 
 /// Oracles that look at one state only: (i)-(iii), (iv). Returns the re-read document, or None if violated.
@@ -1168,7 +1227,7 @@ fn run_part(ctx: &Ctx, part: &str, tag: u8, uni: Uni, depth: Option<usize>) {
 fn generate(ctx: &Ctx) {
   ctx.rule("stateright BFS over histories of checked CoreDocument mutations executed on the real document; state fingerprint = exact canonical JSON (entry order kept); every operation of the part's alphabet is applied to every reachable document (closure = frontier emptied) and oracles (i)-(viii) run on every transition; violating successors are reported and not expanded. distinct_nontrivial = unique reachable documents (by exact JSON) over all parts");
   ctx.assume("serde_json is a faithful JSON codec; CoreDocument's public accessors (verification_method(), authentication(), ..., service()) expose the stored entries; PartialEq of CoreDocument/VerificationMethod/Service is structural");
-  ctx.assume("fragment-only queries that denote several ids in the document (the code documents 'unexpected behaviour') are judged only as 'behaves as for one of the denoted ids'; a method/service insertion whose id is held only by a dangling reference is left open for scope VerificationMethod / services");
+  ctx.assume("resolution queries (resolve_method, resolve_method_mut, resolve_service) are judged against an exact first-match model built from the documented orders (verification_relationships(): authentication, assertionMethod, keyAgreement, capabilityDelegation, capabilityInvocation; entry order inside each set; then verificationMethod order); the only sub-case judged as 'behaves as for one of the denoted ids' is a fragment denoting several ids whose first matching entry is a reference to a method that is not in the document (the docs do not say whether the search stops there); attach/detach by a fragment denoting several ids are judged 'as for one of the denoted ids'; a method/service insertion whose id is held only by a dangling reference is left open for scope VerificationMethod / services");
   // start documents alone (oracles at depth 0)
   for init in 0..INIT_NAMES.len() as u8 {
     let c = Case::History { init, ops: vec![] };
